@@ -363,6 +363,32 @@ def constuse_stream(sh, backend, n, mech_fn):
     else: sh.count("constant_use_designs_cosimulated"); sh.count("constuse:" + how)
 
 
+def gen_descloop_design(rng):
+  """for i in range(hi, lo, -step) with lo in 0..3 and steps up to 5 (the last index visited may be smaller than the step: a loop
+  counter that is decremented below zero has to end the loop, not wrap); the elements the loop skips are assigned one by one"""
+  n = rng.randrange(3, 10); w = rng.choice([1, 4, 8])
+  hi = n - 1; lo = rng.choice([0, 0, 1, 1, 2, 3]); lo = min(lo, hi - 1); st = rng.randrange(1, 6)
+  visited = list(range(hi, lo, -st))
+  L = ["from pymtl3 import *", "class DLTop(Component):", "  def construct(s):",
+       f"    s.in_ = [InPort({w}) for _ in range({n})]; s.out = [OutPort({w}) for _ in range({n})]", "    @update", "    def up():"]
+  for j in range(n):
+    if j not in visited: L.append(f"      s.out[{j}] @= ~s.in_[{j}]")
+  L += [f"      for i in range({hi}, {lo}, -{st}):", "        s.out[i] @= s.in_[i]"]
+  return "\n".join(L) + "\n", (hi, lo, st)
+
+
+def descloop_stream(sh, backend, n, mech_fn):
+  for case in range(n):
+    rng = sh.rng("descloop", case)
+    src, shape = gen_descloop_design(rng)
+    before = sh.counters.get("rejected_by_translator", 0)
+    directed(sh, backend, f"descloop-{case}", src, "DLTop", mech_fn)
+    if sh.counters.get("rejected_by_translator", 0) > before: sh.count("descending_loop_designs_refused")
+    else:
+      sh.count("descending_loop_designs_cosimulated")
+      if shape[1] >= 1 and shape[2] >= 2: sh.count("descending_loops_with_positive_end_and_step_2plus")
+
+
 def localname_stream(sh, backend, n, mech_fn):
   for case in range(n):
     rng = sh.rng("localname", case)
